@@ -260,8 +260,155 @@ def anonymous(ctx):
         ctx.violation("numbering", "anonymous-enum-constants", {"text": text, "got": got, "len": len(cs.T)})
 
 
+def anonymous_constants(ctx, rng, n):
+    """Every member of an anonymous enum or flag is a constant of its value -- the zero member, aliases, masks and
+    combinations of a flag included -- usable in the value expressions of later enums and in array sizes."""
+    for it in range(n):
+        flag = rng.random() < 0.6
+        base = rng.choice(["uint8", "uint16", "uint32", "int32", "uint64"])
+        pre = f"AC{it}_"
+        members, vals = [], {}
+        if flag:
+            pool = [("NONE", "0", 0), ("R", "1", 1), ("W", "2", 2), ("X", "0x4", 4), ("RW", f"{pre}R | {pre}W", 3),
+                    ("MASK", "0x7", 7), ("ALIAS", f"{pre}W", 2), ("HI", "0x40", 0x40), ("ALL", f"{pre}MASK | {pre}HI", 0x47)]
+            chosen = [m for m in pool if rng.random() < 0.75 or m[0] in ("R", "W", "MASK", "HI")]
+        else:
+            pool = [("ZERO", "0", 0), ("ONE", None, 1), ("FIVE", "5", 5), ("SIX", None, 6), ("DUP", f"{pre}FIVE", 5),
+                    ("SUM", f"{pre}FIVE + {pre}ONE", 6), ("NEXT", None, 7), ("BIG", "0x30", 0x30)]
+            chosen = pool[:3] + [m for m in pool[3:] if rng.random() < 0.8]
+            # implicit members continue from the previous one: recompute
+        prev = -1
+        for nm, expr, v in chosen:
+            if expr is None:
+                v = prev + 1 if not flag else v
+            else:
+                v = None
+            members.append((pre + nm, expr))
+        sep = rng.choice([", ", ",\n    "])
+        body = sep.join(f"{nm} = {e}" if e is not None else nm for nm, e in members)
+        text = f"{'flag' if flag else 'enum'} : {base} {{ {body} }};\n"
+        ctx.evaluation(("anonymous-constants", text))
+        ctx.cell("anonymous-constants:" + ("flag" if flag else "enum"))
+        det = {"text": text, "workload": "anonymous-constants"}
+        try:
+            cs = lib.load(text)
+            # reference values: evaluate in order with Python over what was defined before
+            env, prev = {}, None
+            for nm, e in members:
+                if e is None:
+                    val = (0 if prev is None else prev + 1) if not flag else (1 if prev is None else 1 << prev.bit_length())
+                else:
+                    val = eval(e, {}, dict(env))  # noqa: S307 - our own literal expressions
+                env[nm] = prev = val
+            got = {}
+            for nm in env:
+                if nm not in cs.consts:
+                    got[nm] = "missing"
+                else:
+                    got[nm] = int(cs.consts[nm])
+            if got != env:
+                ctx.violation("numbering", "anonymous-enum-constants", dict(det, got=got, want=env))
+                continue
+            # ... and every one of them can be used afterwards
+            nm_use = rng.choice(list(env))
+            later = f"enum Later{it} : uint64 {{ L_FIRST{it} = {nm_use} + 1, L_NEXT{it} }};\nstruct U{it} {{ uint8 d[{nm_use}]; uint8 e; }};\n"
+            cs.load(later)
+            L = getattr(cs, f"Later{it}")
+            if [int(m.value) for m in L.__members__.values()] != [env[nm_use] + 1, env[nm_use] + 2] or \
+                    len(getattr(cs, f"U{it}")) != env[nm_use] + 1 or int(getattr(cs, nm_use)) != env[nm_use]:
+                ctx.violation("numbering", "anonymous-enum-constant-unusable-or-wrong-in-a-later-definition",
+                              dict(det, later=later, constant=nm_use, want=env[nm_use]))
+                continue
+            ctx.event("anonymous_constants_checked", len(env))
+        except Exception as e:  # noqa: BLE001
+            ctx.violation("numbering", f"anonymous-enum-constants-raise:{type(e).__name__}", dict(det, error=lib.exc_sig(e)))
+
+
+def enum_over_enum(ctx):
+    """An enum or flag whose underlying type is an enum itself: every way to get a value -- the type called with bytes,
+    a stream or an integer, a structure field, an array element -- gives equal objects with equal hashes whose value is
+    the plain integer and whose name is the member's."""
+    import io
+
+    text = ("enum E : uint8 { A = 1 };\nenum U : E { P = 1, Q = 9 };\nflag G : E { X = 1, Y = 2 };\n"
+            "struct s { U u; G g; U arr[2]; };")
+    for compiled in (True, False):
+        for endian in "<>":
+            ctx.evaluation(("enum-over-enum", compiled, endian))
+            ctx.cell("enum-over-enum")
+            det = {"text": text, "compiled": compiled, "endian": endian, "workload": "enum-over-enum"}
+            try:
+                cs = lib.load(text, endian, False, compiled)
+                for T, raw, field, member in ((cs.U, 9, "u", cs.U.Q), (cs.U, 7, "u", None), (cs.G, 3, "g", None), (cs.G, 2, "g", cs.G.Y)):
+                    o = cs.s(bytes([raw if field == "u" else 1, raw if field == "g" else 1, raw if field == "u" else 1, 1]))
+                    vals = {"bytes": T(bytes([raw])), "stream": T(io.BytesIO(bytes([raw]))), "int": T(raw), "field": getattr(o, field),
+                            "reads": T.reads(bytes([raw]))}
+                    if field == "u":
+                        vals["array element"] = o.arr[0]
+                    facts = {k: (type(v.value) is int, int(v.value), v.name, hash(v) == hash(vals["int"]), v == vals["int"],
+                                 v.dumps()) for k, v in vals.items()}
+                    want = (True, raw, member.name if member is not None else vals["int"].name, True, True, bytes([raw]))
+                    bad = {k: f for k, f in facts.items() if f != want}
+                    if member is not None and {member: 1}.get(vals["bytes"]) != 1:
+                        bad["as dict key"] = "parsed value does not find its member"
+                    if bad:
+                        ctx.violation("value", "enum-over-an-enum-parsed-directly-differs-from-the-same-value-obtained-otherwise",
+                                      dict(det, type=T.__name__, raw=raw, differing=repr(bad), want=repr(want)))
+                    else:
+                        ctx.event("enum_over_enum_checked")
+            except Exception as e:  # noqa: BLE001
+                ctx.violation("value", f"enum-over-an-enum-raises:{type(e).__name__}", dict(det, error=lib.exc_sig(e)))
+
+
+def property_named_members(ctx):
+    """Members called `name` or `value` (legal C identifiers; members have properties of these names), alone, as
+    aliases of an earlier member and as the aliased one: the declaration loads, every member keeps its own name and
+    integer value, parsed values find their member."""
+    forms = [("enum", "A = 0, value = 0", {"A": 0, "value": 0}), ("flag", "A = 1, value = 1", {"A": 1, "value": 1}),
+             ("enum", "A = 0, name = 0, B = 5", {"A": 0, "name": 0, "B": 5}), ("flag", "A = 1, name = 1, B = 2", {"A": 1, "name": 1, "B": 2}),
+             ("enum", "name = 3, value = 4, B = 5", {"name": 3, "value": 4, "B": 5}), ("enum", "value, name, C = value", {"value": 0, "name": 1, "C": 0}),
+             ("enum", "name = 2, Z = 2, value = 2", {"name": 2, "Z": 2, "value": 2})]
+    for kw, body, want in forms:
+        for base in ("uint8", "uint32"):
+            text = f"{kw} X : {base} {{ {body} }};\nstruct S {{ X x; }};"
+            ctx.evaluation(("property-named-members", text))
+            ctx.cell("members-named-name-or-value")
+            det = {"text": text, "workload": "property-named-members"}
+            try:
+                cs = lib.load(text)
+                X = cs.X
+                got = {k: int(v.value) for k, v in X.__members__.items()}
+                names = {k: v.name for k, v in X.__members__.items()}
+                size = len(X)
+                facts = {"members": got == want, "names": names == {k: k for k in want}}
+                for k, v in want.items():
+                    raw = v.to_bytes(size, "little")
+                    p = cs.S(raw).x
+                    facts[f"parsed {k}"] = int(p.value) == v and p == X[k] and hash(p) == hash(X[k]) and p.dumps() == raw \
+                        and isinstance(p.name, str) and isinstance(str(p), str) and isinstance(repr(p), str)
+                unknown = X(0x40)
+                facts["unknown value"] = int(unknown.value) == 0x40 and unknown.dumps() == (0x40).to_bytes(size, "little")
+            except RecursionError as e:
+                ctx.violation("value", "member-named-like-a-member-property-breaks-the-enum", dict(det, error="RecursionError"))
+                continue
+            except Exception as e:  # noqa: BLE001
+                ctx.violation("value", f"member-named-like-a-member-property-raises:{type(e).__name__}", dict(det, error=lib.exc_sig(e)))
+                continue
+            bad = [k for k, ok in facts.items() if not ok]
+            if bad:
+                ctx.violation("value", "member-named-like-a-member-property-breaks-the-enum", dict(det, failing=bad, names=repr(names), members=got))
+            else:
+                ctx.event("property_named_members_checked")
+
+
 def run(ctx):
     rng = ctx.rng("decls")
+    if ctx.shard == 2:
+        enum_over_enum(ctx)
+    if ctx.shard == 3:
+        property_named_members(ctx)
+    if ctx.shard == 1:
+        anonymous_constants(ctx, ctx.rng("anonymous-constants"), 30 if not ctx.thorough else 400)
     if ctx.shard == 0:
         check_decl(ctx, ctx.rng("pinned-k2"), True, "int8", 9000)  # pinned witness of the open finding K2
         ctx.cell("pinned-witnesses")
@@ -281,6 +428,9 @@ def replay(ctx, detail):
     if "cfg" not in detail:
         anonymous(ctx)
         legacy_numbering(ctx, ctx.rng("legacy"), 40)
+        anonymous_constants(ctx, ctx.rng("anonymous-constants"), 30)
+        enum_over_enum(ctx)
+        property_named_members(ctx)
         return
     cs = lib.load(detail["text"], detail["cfg"]["endian"], False, detail["cfg"]["compiled"])
     print({n: t for n, t in cs.typedefs.items() if isinstance(t, type) and issubclass(t, _enum.Enum)})
